@@ -329,7 +329,7 @@ void register_c16(std::vector<Profile>& v)
   p.assumptions = {"sink thresholds and filters change only at barriers with everything flushed (the property does not define 'the sink's "
                    "threshold at the time of a statement' otherwise)",
                    "a statement racing a logger level change may be accepted or rejected"};
-  p.quick_runs = 3000;
+  p.quick_runs = 20000;
   p.thorough_runs = 400000;
   v.push_back(p);
 }
